@@ -142,3 +142,41 @@ func (w *SimWriter) Write(p []byte) (int, error) {
 	w.Buf = append(w.Buf, p...)
 	return len(p), nil
 }
+
+// SimPipe is a synchronous in-simulation byte stream between two tasks (like io.Pipe): a Write
+// blocks until a reader has taken the bytes. Built on a bubble channel, so the simulator sees
+// both ends as tasks blocked in channel operations.
+type SimPipe struct {
+	ch     chan []byte
+	rest   []byte
+	closed bool
+}
+
+var siteSimPipe = verifsim.HarnessSite("harness:SimPipe")
+
+func NewSimPipe() *SimPipe { return &SimPipe{ch: make(chan []byte)} }
+
+func (p *SimPipe) Write(b []byte) (int, error) {
+	cp := append([]byte{}, b...)
+	verifsim.Send(p.ch, cp, siteSimPipe)
+	return len(b), nil
+}
+
+func (p *SimPipe) CloseWrite() { verifsim.Close(p.ch, siteSimPipe) }
+
+func (p *SimPipe) Read(b []byte) (int, error) {
+	if len(p.rest) == 0 {
+		if p.closed {
+			return 0, io.EOF
+		}
+		chunk, ok := verifsim.Recv2(p.ch, siteSimPipe)
+		if !ok {
+			p.closed = true
+			return 0, io.EOF
+		}
+		p.rest = chunk
+	}
+	n := copy(b, p.rest)
+	p.rest = p.rest[n:]
+	return n, nil
+}
